@@ -126,6 +126,16 @@ def corrupt_new_empty(run):
     return None
 
 
+def corrupt_read_back(run):
+    """the read-back of ANOTHER vector in the same allocator shows a changed element after a push elsewhere"""
+    for i, e in enumerate(run):
+        c = (e.get("post") or {}).get("c")
+        if e.get("op") == "maintenance" and e.get("what") == "read_back" and c:
+            c[-1] = [c[-1][0] + 1, 0]
+            return i
+    return None
+
+
 def corrupt_full_flag(run):
     for i, e in enumerate(run):
         p = e.get("post") or {}
@@ -361,6 +371,8 @@ def run(ctx):
          "compare_range_simd: the answer flipped"),
         (T_SEQ, os.path.join(b1d, "seq-mmapvec_read_only_open-0000.ndjson"), corrupt_post_content_of("adopt"), "MmapVec::open: one element of the reopened content changed"),
         (T_SEQ, os.path.join(b1d, "seq-bumpvec_cap_6-0000.ndjson"), corrupt_new_empty, "second BumpVec in the same allocator: reported non-empty at birth"),
+        (T_SEQ, os.path.join(b1d, "seq-bumpvec_mixed_one_allocator-0000.ndjson"), corrupt_read_back,
+         "vectors of different element types in one BumpAllocator: a neighbour's element changed by a push elsewhere"),
         (T_DQ, os.path.join(b1d, "dq-fixedq_3-0000.ndjson"), corrupt_full_flag, "is_full() flipped"),
         (T_DQ, fq, corrupt_alt_len, "a twin of len() of a queue (is_empty / performance_stats) off by one"),
         (T_STR, os.path.join(b1d, "str-fixedlen_64-0000.ndjson"), corrupt_field("count_prefix", "r", lambda r: r + 1), "count_prefix off by one"),
@@ -458,7 +470,8 @@ def run(ctx):
         "is_full, stats(), performance_stats()); B1 additionally drives push_panic / unchecked_push(_copy) / push() / pop() aliases, writes through "
         "get_mut / as_mut_slice / iter_mut / index_mut, resize_with, with_size, ensure_capacity, copy_from_slice_fast, extend_from_slice_copy, push_n_copy "
         "(0,1,3,15,16,17,33 copies: both sides of the 16-element strategy switch), compare_range_simd, MmapVec::open (sync + reopen; a file opened read-only), "
-        "a second BumpVec in the same allocator, count_prefix, range, BitPacked extend, SortableStrVec::from_iter; configurations: capacities 0/1/2/3 for every "
+        "a second BumpVec in the same allocator, 3-6 BumpVecs of different element types (u8, u16, u32, u64, u128, (u8,u64)) carved from one allocator in varying "
+        "order with odd capacities 1/3/5/7, pushes interleaved and EVERY vector read back after every mutation of any of them, count_prefix, range, BitPacked extend, SortableStrVec::from_iter; configurations: capacities 0/1/2/3 for every "
         "vector, MmapVec initial capacity 0..3 x growth 1.0/1.1/1.25/1.5/1.618/2.0 and every preset (large_dataset, performance/memory_optimized, realtime, "
         "persistent_cache, read_only, builder flags, with_capacity_simd), BitPacked / AdvancedString presets, fixed queues N = 1..8, 16 with the head rotated "
         "to every residue and filled across the wrap, AutoGrow initial capacity 0..8; input classes: one-byte elements up to 170 (64-byte fast_fill paths of "
